@@ -25,11 +25,11 @@ suite_ok = not real and 'cannot' not in out and 'build failed' not in out
 print('suite-with-patch:', 'PASS' if suite_ok else 'FAIL', '|', ' / '.join(bad[:4]))
 clean()
 # (2) demo with the patch
-rc, out_with = sh(demo)
+has_apply = re.search(r'git (-C \S+ )?apply [^;&]*patch\.diff', demo) is not None
+rc, out_with = sh(demo if has_apply else 'git apply seeded/%s/patch.diff && %s' % (k, re.sub(r'^cd \S+ && ', '', demo)))
 clean()
 # (3) demo without the patch
-nopatch = re.sub(r'git (-C \S+ )?apply [^;&]*patch\.diff\s*(&&|;)', '', demo)
-assert nopatch != demo, 'cannot strip git apply from: ' + demo
+nopatch = re.sub(r'git (-C \S+ )?apply [^;&]*patch\.diff\s*(&&|;)', '', demo) if has_apply else demo
 rc, out_wo = sh(nopatch)
 clean()
 def verdict(o):
